@@ -10,7 +10,7 @@ from ..gen.grids import build_grid, grid_meta, grid_spec, rigid_spec, rotation_m
 ID = "C20"
 RULE = (
     "Hypothesis draws a grid spec (all families of C19, dims 1-3, perturbed / affine / mixed polygons) and a proper "
-    "rigid motion (Rodrigues rotation about a random / axis-aligned axis, angles incl. pi/2, pi and pi-1e-3..1e-6, plus "
+    "rigid motion on grids of length scale 1e-4..1e3 (Rodrigues rotation about a random / axis-aligned axis, angles incl. pi/2, pi and pi-1e-3..1e-6, plus "
     "translation). The grid geometry is computed before and after moving the nodes (1-d and 2-d grids thereby embedded "
     "in arbitrary lines / planes, exercising compute_tangent / compute_normal plane fitting). Oracle: volumes and "
     "areas unchanged, cell and face centres mapped by the motion, normals mapped by the rotation (in every dimension the "
@@ -29,7 +29,7 @@ REQUIRED = {"dim1": 0.1, "dim2": 0.1, "dim3": 0.1, "rot-axis": 0.1, "rot-random"
 
 @st.composite
 def _spec(draw, tier):
-    g = draw(grid_spec(rigid=False, gmsh=(tier == "thorough")))
+    g = draw(grid_spec(rigid=False, gmsh=(tier == "thorough"), scales=True))
     r = draw(rigid_spec(identity_ok=False))
     return {"grid": g, "motion": r}
 
@@ -48,13 +48,19 @@ def check(spec):
     t = np.asarray(m["shift"], dtype=float)[:, None]
     g1.nodes = R @ g1.nodes + t
     g1.compute_geometry()
-    sc = float(np.abs(g1.nodes).max()) + 1.0
-    require_close(g1.cell_volumes, g0.cell_volumes, "volumes", rtol=1e-9, what="cell volumes after motion")
-    require_close(g1.face_areas, g0.face_areas, "areas", rtol=1e-9, what="face areas after motion")
-    require_close(g1.cell_centers, R @ g0.cell_centers + t, "cell-centers", rtol=1e-9, scale=sc, what="cell centres")
-    require_close(g1.face_centers, R @ g0.face_centers + t, "face-centers", rtol=1e-9, scale=sc, what="face centres")
+    # tolerances relative to the grid's own size, plus the rounding floor set by the coordinate magnitude
+    extent = float(np.ptp(g0.nodes, axis=1).max())
+    cmax = max(float(np.abs(g1.nodes).max()), float(np.abs(g0.nodes).max()))
+    atol_x = 1e-9 * extent + 1e-12 * cmax
+    rel_round = 1e-9 + 1e-12 * cmax / extent  # relative accuracy attainable for differences of coordinates
+    require_close(g1.cell_volumes, g0.cell_volumes, "volumes", rtol=rel_round * g0.dim, atol=0.0,
+                  what="cell volumes after motion")
+    require_close(g1.face_areas, g0.face_areas, "areas", rtol=rel_round * max(g0.dim - 1, 1), atol=0.0,
+                  what="face areas after motion")
+    require_close(g1.cell_centers, R @ g0.cell_centers + t, "cell-centers", rtol=0.0, atol=atol_x, what="cell centres")
+    require_close(g1.face_centers, R @ g0.face_centers + t, "face-centers", rtol=0.0, atol=atol_x, what="face centres")
     if g0.dim > 0:
-        require_close(g1.face_normals, R @ g0.face_normals, "normals", rtol=1e-9,
+        require_close(g1.face_normals, R @ g0.face_normals, "normals", rtol=rel_round * max(g0.dim - 1, 1), atol=0.0,
                       scale=float(np.abs(g0.face_normals).max()), what="face normals vs R n")
     ax = np.abs(np.asarray(m["axis"], dtype=float))
     axis_aligned = np.count_nonzero(ax) == 1
